@@ -534,15 +534,19 @@ func Run(c *fw.Ctx) {
 	var next atomic.Int64
 	for w := 0; w < fw.Workers(); w++ {
 		wg.Add(1)
+		slot := fw.NewSlot()
 		go func() {
 			defer wg.Done()
+			defer fw.Untrack(slot)
 			for {
 				k := next.Add(1) - 1
 				if k >= int64(len(orderIdx)) || c.Over() {
 					return
 				}
 				j := jobs[orderIdx[k]]
-				runInput(c, j.idx, corpus[j.idx], fixed, j.same, j.others)
+				in := corpus[j.idx]
+				fw.Track(slot, int64(j.idx), func() string { return "input " + in.Name + " = " + fw.HexShort(in.B) })
+				runInput(c, j.idx, in, fixed, j.same, j.others)
 			}
 		}()
 	}
